@@ -19,7 +19,7 @@ func init() {
 		ID:          "C06",
 		Explanation: "Decided: (coerce) fixNumber and $internalize implement the width/signedness table of the Go spec; (apply) in the operator arms of translateExpr every (operator, kind) pair whose mathematical JavaScript result can leave the operand type's range returns an expression coerced for that kind — computed by a finite-domain abstract interpretation of the guards over all (operator, basic kind) pairs; (dispatch) 64-bit and complex operators reach the matching helper; (div0) integer division templates and $div64 carry the divide-by-zero throw; (const) the two-halves helpers contain the radix constants; operator-switch totality. NOT decided: any numeric value (carries, rounding, shift counts, constant splitting).",
 		Assumptions: []string{"which operators can overflow which kinds is arithmetic knowledge frozen in the checker with reasons", "JavaScript bitwise operators yield signed 32-bit results"},
-		Rules:       []RuleFunc{ruleC06Coerce, ruleC06Apply, ruleC06Dispatch, ruleC06Div0, ruleC06Const, ruleC06Carry, ruleCompoundAssign, ruleC06RemZero, ruleC06Float32From64, ruleC06ExactConstants, ruleNegativeShift, ruleTotal("C06.exh", 5, "translateExpr/BinaryOp", "translateExpr/UnaryOp", "fixNumber", "filter.Assign")},
+		Rules:       []RuleFunc{ruleC06Coerce, ruleC06Apply, ruleC06Dispatch, ruleC06Div0, ruleC06Const, ruleC06Carry, ruleCompoundAssign, ruleC06RemZero, ruleC06Float32From64, ruleC06ExactConstants, ruleNegativeShift, ruleOperandOrder, ruleTotal("C06.exh", 5, "translateExpr/BinaryOp", "translateExpr/UnaryOp", "fixNumber", "filter.Assign")},
 	})
 }
 
